@@ -48,6 +48,10 @@ def subst_expr(e, m):
         return MkOpt(subst_expr(e.cond, m), subst_expr(e.e, m))
     if isinstance(e, Wrap):
         return Wrap(e.fmt, subst_expr(e.e, m), e.conv)
+    if isinstance(e, Range):
+        return Range(subst_expr(e.a, m), subst_expr(e.b, m))
+    if isinstance(e, ListE):
+        return ListE([subst_expr(x, m) for x in e.es])
     raise ValueError('subst_expr: %r' % e)
 
 
@@ -79,6 +83,22 @@ def subst_item(it, m):
     if isinstance(it, Let):
         r = m.get(it.var)
         return Let(r if isinstance(r, str) else it.var, subst_expr(it.e, m))
+    if isinstance(it, IfLet):
+        r = m.get(it.var)
+        return IfLet(r if isinstance(r, str) else it.var, subst_expr(it.e, m), it.pat)
+    if isinstance(it, For):
+        r = m.get(it.var)
+        return For(r if isinstance(r, str) else it.var, subst_expr(it.e, m))
+    if isinstance(it, Agg):
+        def nm(v):
+            r = m.get(v)
+            return r if isinstance(r, str) else v
+        res = nm(it.res) if it.res else None
+        read = it.res_read
+        if read and it.res:
+            import re
+            read = re.sub(r'\b%s\b' % re.escape(it.res), res, read)
+        return Agg(res, it.agg, [nm(b) for b in it.bound], it.rel, [subst_arg(a, m) for a in it.args], it.param, read, it.res_conv)
     if isinstance(it, Disj):
         return Disj([[subst_item(i, m) for i in alt] for alt in it.alts])
     if isinstance(it, MacroCall):
@@ -118,9 +138,19 @@ def item_idents(it, acc):
                 ev(a.e)
     elif isinstance(it, If):
         ev(it.e)
-    elif isinstance(it, Let):
+    elif isinstance(it, (Let, IfLet, For)):
         acc.add(it.var)
         ev(it.e)
+    elif isinstance(it, Agg):
+        if it.res:
+            acc.add(it.res)
+        for b in it.bound:
+            acc.add(b)
+        for a in it.args:
+            if isinstance(a, AVar):
+                acc.add(a.name)
+            elif isinstance(a, AExpr):
+                ev(a.e)
     elif isinstance(it, Disj):
         for alt in it.alts:
             for i in alt:
@@ -198,11 +228,12 @@ class Expander:
 
 
 def gen_macro_program(rng, dom=4):
-    rels = [Rel('e', [T.I32, T.I32]), Rel('f', [T.I32, T.I32]), Rel('g', [T.I32]), Rel('t', [T.I32, T.I32, T.I32])]
+    rels = [Rel('e', [T.I32, T.I32]), Rel('f', [T.I32, T.I32]), Rel('g', [T.I32]), Rel('t', [T.I32, T.I32, T.I32]), Rel('po', [T.I32, T.OptTy(T.I32)])]
     nout = rng.randint(2, 4)
     outs = [Rel('o%d' % i, [T.I32] * rng.choice([1, 2, 2, 3])) for i in range(nout)]
     rels += outs
-    inputs = ['e', 'f', 'g', 't']
+    inputs = ['e', 'f', 'g', 't']          # relations of plain i32 columns, used by the clause generators
+    all_inputs = inputs + ['po']
     byname = {r.name: r for r in rels}
     macros = []
 
@@ -258,6 +289,59 @@ def gen_macro_program(rng, dom=4):
                 body.append(Clause('g', [AVar('$' + p)]))
         if bound_locs and rng.random() < 0.3:
             body.append(Neg('g', [AVar(rng.choice(bound_locs))]))
+        # the other kinds of body items, each binding a further macro-local identifier: ?pattern arguments, conditions attached to
+        # clauses (let / if let), stand-alone let / if let / if, generators and aggregations
+        def fresh_local():
+            cands = [n for n in NAMES + [b + d for b in DIGIT_BASES for d in ('1', '2')] if n not in locs]
+            l = rng.choice(cands)
+            locs.append(l)
+            return l
+
+        def some_var():
+            if bound_locs and rng.random() < 0.75:
+                return V(rng.choice(bound_locs))
+            ps = [p for p in used_params]
+            return V('$' + rng.choice(ps)) if ps else K(rng.randrange(dom))
+        for _ in range(rng.choice([0, 0, 1, 1, 2])):
+            kind = rng.choice(['pat', 'attached', 'let', 'iflet', 'if', 'for', 'agg'])
+            if kind == 'pat':
+                l = fresh_local()
+                key = some_var()
+                body.append(Clause('po', [AVar(key.name) if isinstance(key, V) else AExpr(key), APat('Some', l)]))
+                bound_locs.append(l)
+            elif kind == 'attached' and bound_locs:
+                l = fresh_local()
+                src = rng.choice(bound_locs)
+                cond = Let(l, Bin('+', V(src), K(rng.randrange(1, dom)), dom)) if rng.random() < 0.5 else \
+                    IfLet(l, MkOpt(Cmp(rng.choice(['<', '!=', '>=']), V(src), K(rng.randrange(dom))), Bin('+', V(src), K(1), dom)))
+                for it in body:
+                    if isinstance(it, Clause) and src in [a.name for a in it.args if isinstance(a, AVar)] + [a.var for a in it.args if isinstance(a, APat)]:
+                        it.conds.append(cond)
+                        bound_locs.append(l)
+                        break
+                else:
+                    locs.remove(l)
+            elif kind == 'let':
+                l = fresh_local()
+                body.append(Let(l, Bin('+', some_var(), K(rng.randrange(dom)), dom)))
+                bound_locs.append(l)
+            elif kind == 'iflet':
+                l = fresh_local()
+                v = some_var()
+                body.append(IfLet(l, MkOpt(Cmp(rng.choice(['<', '!=', '>=']), v, K(rng.randrange(dom))), Bin('*', v, K(2), dom))))
+                bound_locs.append(l)
+            elif kind == 'if':
+                body.append(If(Cmp(rng.choice(['<', '!=', '<=', '==']), some_var(), some_var())))
+            elif kind == 'for':
+                l = fresh_local()
+                body.append(For(l, Range(K(0), Bin('+', some_var(), K(1), 3))))
+                bound_locs.append(l)
+            elif kind == 'agg':
+                res, bv = fresh_local(), fresh_local()
+                key = some_var()
+                body.append(Agg(res, rng.choice(['min', 'max']), [bv], 'e', [AVar(key.name) if isinstance(key, V) else AExpr(key), AVar(bv)]))
+                body.append(If(Cmp(rng.choice(['<', '>=', '!=']), V(res), K(rng.randrange(dom)))))
+                bound_locs.append(res)
         if idx > 0 and rng.random() < 0.5:
             # nested invocation: arguments are parameters / bound locals
             callee = rng.choice(macros[:idx])
@@ -282,7 +366,12 @@ def gen_macro_program(rng, dom=4):
                     args.append(rng.choice(cands))
                 if ok:
                     body.append(MacroCall(callee.name, args))
-        if rng.random() < 0.2 and len(body) >= 2:
+        def repeatable(it):
+            # an item that may occur twice on one path: it binds nothing through let / if let / ?pattern / for / agg
+            if isinstance(it, (Neg, If)):
+                return True
+            return isinstance(it, Clause) and not any(isinstance(c, (Let, IfLet)) for c in it.conds) and not any(isinstance(a, APat) for a in it.args)
+        if rng.random() < 0.2 and len(body) >= 2 and repeatable(body[0]) and repeatable(body[1]):
             body = [Disj([[body[0]], [body[0]] + body[1:2]])] + body[1:]
         return MacroDef('m%d' % idx, params, body=body)
 
@@ -372,7 +461,7 @@ def gen_macro_program(rng, dom=4):
         heads.append(Head(qn, [V(v) for v in bound[:4]]))
         rules.append(Rule(heads, body))
     prog = Program(rels, rules, macros)
-    return prog, inputs
+    return prog, all_inputs
 
 
 # ------------------------------------------------------------------------------------------------
